@@ -312,3 +312,154 @@ m("C02", "refactor-content-name", C,
         body = self._engine(node.expression, store(name))''',
   '''        name = "__text"
         body = self._engine(node.expression, store(name))''', expect="silent")
+
+# ---- C01 -------------------------------------------------------------------
+m("C01", "repeat-outside-condition", ZP,
+  '''            CASE,
+            CONDITION,
+            REPEAT,
+            SWITCH,''',
+  '''            CASE,
+            REPEAT,
+            CONDITION,
+            SWITCH,''')
+m("C01", "condition-outside-define", ZP,
+  '''            DEFINE_SLOT,
+            DEFINE,
+            CASE,
+            CONDITION,''',
+  '''            DEFINE_SLOT,
+            CONDITION,
+            DEFINE,
+            CASE,''')
+m("C01", "default-branches-swapped", ZP,
+  '''                nodes.BinOp(value, nodes.Is, self.default_marker),
+                default,
+                content,
+            )''',
+  '''                nodes.BinOp(value, nodes.Is, self.default_marker),
+                content,
+                default,
+            )''')
+m("C01", "omit-end-tag-unconditional", ZP,
+  '''                    if end_tag is not None:
+                        end_tag = nodes.Condition(expression, end_tag)
+''', '')
+m("C01", "omit-not-cached", ZP,
+  '''                if omit is not False:
+                    inner = nodes.Cache([omit], inner)
+''', '')
+m("C01", "replace-keeps-content-only", ZP,
+  '''                inner = self._make_content_node(
+                    value, inner, key, translate
+                )''',
+  '''                inner = self._make_content_node(
+                    value, content, key, translate
+                )''')
+m("C01", "condition-else-swapped", C,
+  '''                body=self.visit(node.node) or [ast.Pass()],
+                orelse=self.visit(orelse) if orelse else None,''',
+  '''                body=self.visit(orelse) or [ast.Pass()],
+                orelse=self.visit(node.node) if orelse else None,''')
+m("C01", "repeat-binding-after-body", C,
+  '''            body=assignment + inner,''',
+  '''            body=inner + assignment,''')
+m("C01", "element-end-before-content", C,
+  '''        yield from self.visit(node.content)
+
+        if node.end is not None:
+            yield from self.visit(node.end)''',
+  '''        if node.end is not None:
+            yield from self.visit(node.end)
+
+        yield from self.visit(node.content)''')
+m("C01", "cancel-other-variable", C,
+  '''            assert self._expression_cache.get(expression) is not None
+            name = identifier("cache", id(expression))''',
+  '''            assert self._expression_cache.get(expression) is not None
+            name = identifier("cancel", id(expression))''')
+m("C01", "case-binds-own-switch", ZP,
+  '''            for parent_switch in reversed(self._switches[:-1]):''',
+  '''            for parent_switch in reversed(self._switches):''')
+m("C01", "content-none-appended", C,
+  '''        body += template("if NAME is not None: __append(NAME)", NAME=name)''',
+  '''        body += template("__append(NAME)", NAME=name)''')
+m("C01", "define-after-body", C,
+  '''            yield from self.visit(assignment)
+
+        yield from self.visit(node.node)
+''',
+  '''            pass
+
+        yield from self.visit(node.node)
+
+        for assignment in node.assignments:
+            yield from self.visit(assignment)
+''')
+m("C01", "attribute-order-dependent-loop", ZP,
+  '''            if prefix == TAL or prefix == METAL:
+                ns[prefix, attr] = decode_htmlentities(encoded)''',
+  '''            if prefix == TAL or prefix == METAL:
+                ns[prefix, attr] = decode_htmlentities(encoded)
+                self._order = getattr(self, "_order", [])
+                self._order.append(attr)''')
+m("C01", "cache-reevaluates", C,
+  '''            # Skip re-evaluation
+            if self._expression_cache.get(expression):
+                continue
+''', '')
+m("C01", "content-keeps-nothing-on-default", ZP,
+  '''                content = self._make_content_node(
+                    value, content, key, translate,
+                )
+
+                if end is None:''',
+  '''                content = self._make_content_node(
+                    value, None, key, translate,
+                )
+
+                if end is None:''')
+m("C01", "refactor-reorder-blocks", ZP,
+  '''        # tal:condition
+        try:
+            clause = ns[TAL, 'condition']
+        except KeyError:
+            CONDITION = skip
+        else:
+            expression = nodes.Value(clause)
+            CONDITION = partial(nodes.Condition, expression)
+
+        # tal:switch
+        if switch is None:
+            SWITCH = skip
+        else:
+            SWITCH = partial(nodes.Cache, [switch])
+''',
+  '''        # tal:switch
+        if switch is not None:
+            SWITCH = partial(nodes.Cache, [switch])
+        else:
+            SWITCH = skip
+
+        # tal:condition
+        try:
+            clause = ns[TAL, 'condition']
+        except KeyError:
+            CONDITION = skip
+        else:
+            cond_expr = nodes.Value(clause)
+            CONDITION = partial(nodes.Condition, cond_expr)
+''', expect="silent")
+m("C01", "refactor-wrap-twice", ZP,
+  '''            SWITCH,
+            DOMAIN,
+            CONTEXT,
+            TARGET,
+        )
+''',
+  '''            SWITCH,
+            DOMAIN,
+            CONTEXT,
+            TARGET
+        )
+''', expect="silent")
